@@ -20,11 +20,9 @@ import (
 	"crypto/elliptic"
 	crand "crypto/rand"
 	"crypto/sha256"
-	"crypto/tls"
 	"crypto/x509"
 	"encoding/base64"
 	"encoding/json"
-	"errors"
 	"fmt"
 	"math/rand"
 	"net"
@@ -834,31 +832,6 @@ func (e *c16Env) runE2E(w *emit.Writer, in c16In, desc map[string]any, r *rand.R
 	return nil
 }
 
-// tlsListener serves TLS handshakes on ln with cfg's GetCertificate (as a server using certmagic
-// does); it returns a function that stops it.
-func tlsListener(ln net.Listener, cfg *certmagic.Config) func() {
-	tc := cfg.TLSConfig()
-	done := make(chan struct{})
-	go func() {
-		for {
-			c, err := ln.Accept()
-			if err != nil {
-				close(done)
-				return
-			}
-			go func() {
-				defer c.Close()
-				tconn := tls.Server(c, tc)
-				tconn.SetDeadline(time.Now().Add(10 * time.Second))
-				tconn.Handshake()
-				tconn.Close()
-			}()
-		}
-	}()
-	return func() { ln.Close(); <-done }
-}
-
-var errC16E2E = errors.New("c16 e2e")
 
 // c16E2EIn builds the input of an end-to-end scenario.
 func c16E2EIn(shape, kind, variant string, honour bool) c16In {
